@@ -58,6 +58,10 @@ InOf(e) ==
                            IN IF \E i \in 1..Len(hs) : hs[i].n = "?" THEN [k |-> "?"]
                               ELSE [k |-> "read", seq |-> e.seq, hs |-> hs, rep |-> rep, ob |-> "", bad |-> ""] @@ adr
                       [] e.fc = 23 /\ e.hdrs = <<>> -> req("delay", {}, "", "")
+                      [] e.fc = 24 /\ e.hdrs = <<>> -> req("record", {}, "", "")
+                      [] e.fc \in {13, 14} /\ e.hdrs = <<>> -> req(IF e.fc = 13 THEN "cold" ELSE "warm", {}, "", "")
+                      [] e.fc = 2 /\ Len(e.robjs) = 1 /\ e.robjs[1].g = 50 /\ e.robjs[1].v \in {1, 3} /\ e.robjs[1].tm = "5000" ->
+                           req(IF e.robjs[1].v = 1 THEN "wtabs" ELSE "wtlast", {}, "", "")
                       [] e.fc \in {20, 21} /\ ClsOf(e.hdrs) # {} /\ Cardinality(ClsOf(e.hdrs)) = Len(e.hdrs) ->
                            req(IF e.fc = 20 THEN "enable" ELSE "disable", ClsOf(e.hdrs), "", "")
                       [] isCtl ->
